@@ -53,9 +53,36 @@ def all_signatures():
                                     yield {'npos': npos, 'ndef': ndef, 'varargs': varargs,
                                            'kwodef': list(kwodef), 'varkw': varkw, 'ann': ann,
                                            'async': is_async}
+    # the same shapes with defaults that are EQUAL but not identical (1.0, 1, True ...): a default that is
+    # looked up by value lands on the wrong parameter
+    for npos in (2, 3):
+        for ndef in range(2, npos + 1):
+            for varargs in (False, True):
+                for kwodef in ((), (True,), (True, True)):
+                    for varkw in (False, True):
+                        yield {'npos': npos, 'ndef': ndef, 'varargs': varargs, 'kwodef': list(kwodef),
+                               'varkw': varkw, 'ann': False, 'async': False, 'eqdefaults': True}
+
+
+EQ_DEFAULTS = {'a': '1.0', 'b': '1', 'c': 'True', 'k1': '1', 'k2': '1.0'}
 
 
 def source(sig, name='target'):
+    if sig.get('eqdefaults'):
+        parts = []
+        npos, ndef = sig['npos'], sig['ndef']
+        for i in range(npos):
+            parts.append(POS[i] + ('=' + EQ_DEFAULTS[POS[i]] if i >= npos - ndef else ''))
+        if sig['varargs']:
+            parts.append('*args')
+        elif sig['kwodef']:
+            parts.append('*')
+        for i, d in enumerate(sig['kwodef']):
+            parts.append(KWO[i] + '=' + EQ_DEFAULTS[KWO[i]])
+        if sig['varkw']:
+            parts.append('**kw')
+        return ('def %s(%s):\n    "docstring of target"\n    return dict((k, (type(v).__name__, v)) for k, v in '
+                'locals().items())\n' % (name, ', '.join(parts)))
     parts = []
     npos, ndef = sig['npos'], sig['ndef']
 
@@ -127,7 +154,7 @@ def sigdiff(sa, sb):
     for x, y in zip(pa, pb):
         if x.kind != y.kind:
             return 'kind'
-        if x.default != y.default:
+        if x.default != y.default or type(x.default) is not type(y.default):
             return 'defaults'
         if x.annotation != y.annotation:
             return 'annotations'
@@ -202,8 +229,8 @@ def check(c, st):
                     % (source(sig).splitlines()[0], p.name, e))
         got = list(inspect.signature(wi, follow_wrapped=False).parameters.values())
         want = [q for q in params if q.name != p.name]
-        if [(q.name, q.kind, q.default, q.annotation) for q in got] != \
-                [(q.name, q.kind, q.default, q.annotation) for q in want]:
+        if [(q.name, q.kind, q.default, type(q.default), q.annotation) for q in got] != \
+                [(q.name, q.kind, q.default, type(q.default), q.annotation) for q in want]:
             return ('injected:%s' % ('kwonly' if p.kind == p.KEYWORD_ONLY else
                                      'positional-with-default' if p.default is not p.empty else 'positional-required'),
                     '%s with injected=%r -> %s' % (source(sig).splitlines()[0], p.name,
@@ -219,8 +246,8 @@ def check(c, st):
             after_default = tag == 'required' and sig['ndef'] > 0
             return ('expected-raised:%s%s' % (type(e).__name__, ':positional-after-default' if after_default else ''),
                     'wraps(%s, expected=%r) raised %r' % (source(sig).splitlines()[0], exp, e))
-        others = [(q.name, q.kind, q.default, q.annotation) for q in got if q.name != 'zz']
-        want = [(q.name, q.kind, q.default, q.annotation) for q in params]
+        others = [(q.name, q.kind, q.default, type(q.default), q.annotation) for q in got if q.name != 'zz']
+        want = [(q.name, q.kind, q.default, type(q.default), q.annotation) for q in params]
         new = [q for q in got if q.name == 'zz']
         want_default = inspect.Parameter.empty if tag == 'required' else 'dz'
         if others != want or len(new) != 1 or new[0].default != want_default:
@@ -269,7 +296,7 @@ def replay(witness):
 
 
 def finalize(stats, coverage):
-    fam = 1120
+    fam = len(list(all_signatures()))
     done = stats.counters.get('signatures', 0)
     coverage['exhaustive'] = bool(coverage.get('verdict') == 'held-on-observed' and done >= fam
                                   and not any('stopped after' in n for n in stats.notes))
